@@ -91,7 +91,7 @@ def history_plan(rng, tier, levels, silent_streak=False, identity_changes=True, 
                 mine.append({"id": opid, "s": s, "op": "get", "oid": rng.choice([r[0] for r in agent["mib"]] or ["1.3.6"])})
             opid += 1
             mine.append({"id": opid, "s": s, "op": "refresh"})
-        if len(mine) == 1 and rng.random() < 0.1 and not silent_streak:
+        if len(mine) == 1 and rng.random() < 0.2 and not silent_streak:
             # (async runs only) the caller cancels the first refresh from outside - before, between or
             # after its two exchanges - and tries again: the session must come out as if nothing had happened
             mine[0]["cancel_ns"] = rng.choice([501, 1_500_001, 3_000_001, 5_000_001])
